@@ -48,7 +48,7 @@ func zzC13VersionOnlyIfAdvertised() {
 	}
 	h, why := zzRefParseClientHello(uc.HandshakeState.Hello.Raw)
 	verifAssertClass(why == "", "hello-parses-strictly", p.name+":"+why)
-	spec, _ := UTLSIdToSpec(p.id)
+	spec, _ := zzRefSpec(p.id)
 	var specSV []uint16
 	for _, e := range spec.Extensions {
 		if sv, ok := e.(*SupportedVersionsExtension); ok {
